@@ -157,9 +157,10 @@ func runC18(t *core.Tape, st *core.Stats) *core.Violation {
 		return v
 	}
 
-	stop := t.Range(2, 20)
+	maxOps := t.Bound(20, 60)
+	stop := t.Range(2, maxOps)
 
-	for i := 0; i < 20 && t.More(stop); i++ {
+	for i := 0; i < maxOps && t.More(stop); i++ {
 		if len(sides) < 4 && t.Bool(1, 8) {
 			if v := derive(sides[t.Draw(len(sides))]); v != nil {
 				return v
